@@ -130,7 +130,9 @@ fn sanitize(m: &mut Module) {
 }
 
 pub fn rand(groups: &mut Vec<Group>, rng: &mut Rng, tier: &str) {
-    let n = if tier == "quick" { 36 } else { 320 };
+    // thorough: more modules, but the zoo stays below ~4000 types: every type instantiates every monitor, and rustc
+    // needed > 20 GB per shard for 7000 types (the thorough tier gets its depth from values per type and seeds instead)
+    let n = if tier == "quick" { 36 } else { 120 };
     for k in 0..n {
         let gi = groups.len();
         let mut cfg = GenCfg::codec();
@@ -201,7 +203,9 @@ pub fn large(groups: &mut Vec<Group>) {
 
 /// C03: every shape with n <= N components x {M, O, D}^n x extension marker position x {SEQUENCE, SET}
 pub fn shapes(groups: &mut Vec<Group>, tier: &str) {
-    let nmax = if tier == "quick" { 3 } else { 5 };
+    // thorough: the 3-kind combinations complete to 4 components, the ones with N/Z members complete to 3 and every
+    // fifth of those with 4 (a zoo of 10^4 shapes needs more memory than 16 parallel rustc processes have here)
+    let nmax = if tier == "quick" { 3 } else { 4 };
     let mut all: Vec<(Def, serde_json::Value)> = Vec::new();
     let mut k = 0usize;
     // kinds: M mandatory leaf, O OPTIONAL leaf, D DEFAULT leaf, N mandatory nested plain SEQUENCE (no presence bits,
@@ -212,7 +216,7 @@ pub fn shapes(groups: &mut Vec<Group>, tier: &str) {
         let combos = 5usize.pow(n as u32);
         for combo in 0..combos {
             let digits: Vec<usize> = (0..n).scan(combo, |c, _| { let d = *c % 5; *c /= 5; Some(d) }).collect();
-            if digits.iter().any(|d| *d >= 3) && n > nmax5 {
+            if digits.iter().any(|d| *d >= 3) && (n > nmax5 || (tier != "quick" && n == 4 && combo % 25 != 0)) {
                 continue;
             }
             // ext: None, or root = first r components (1 <= r <= n)
@@ -269,7 +273,7 @@ fn fixed_octets(n: u64) -> Type {
 
 /// C05: (V1, V2) pairs; V2 = V1 + k extension additions / alternatives / enumeration items
 pub fn compat(groups: &mut Vec<Group>, rng: &mut Rng, tier: &str) {
-    let npairs = if tier == "quick" { 40 } else { 600 };
+    let npairs = if tier == "quick" { 40 } else { 100 };
     let lens = [1u64, 2, 63, 64, 127, 128, 129, 300];
     let mut made = 0;
     while made < npairs {
@@ -398,7 +402,7 @@ pub fn compat(groups: &mut Vec<Group>, rng: &mut Rng, tier: &str) {
 
 /// C16 (compiled level): SETs with mixed explicit tags over leaf components
 pub fn sets(groups: &mut Vec<Group>, rng: &mut Rng, tier: &str) {
-    let n = if tier == "quick" { 60 } else { 400 };
+    let n = if tier == "quick" { 60 } else { 200 };
     let mut defs = Vec::new();
     for k in 0..n {
         let nc = rng.range(2, 5) as usize;
@@ -899,25 +903,25 @@ pub fn c09_consts(groups: &mut Vec<Group>) {
     {
         // ENUMERATED defaults: inline and referenced, first / last item, item named like a keyword
         let items = |names: &[&str]| Type::Enumerated { root: names.iter().map(|n| EnumItem { name: n.to_string(), num: None }).collect(), ext: None };
-        for (what, names, pick) in [("first-item", vec!["red", "green"], "red"), ("last-item", vec!["red", "green", "dark-blue"], "dark-blue"), ("keyword-item", vec!["type", "match"], "match")] {
+        for (what, names, pick) in [("first-item", vec!["red", "green"], "red"), ("last-item", vec!["red", "green", "dark-blue"], "dark-blue"), ("keyword-item", vec!["type", "match"], "match"), ("item-named-true", vec!["false", "true"], "true"), ("single-letter-segments", vec!["x", "a-b-cd"], "a-b-cd"), ("upper-case-run", vec!["x", "httpURLx"], "httpURLx")] {
             // through a reference to the ENUMERATED
             let gi = groups.len();
             let mut m = Module::new(&module_name(gi, 0));
             m.push_def(def("Colour", items(&names)));
             m.push_def(def("Holder", Type::Sequence(Comps { root: vec![dflt("a", Type::Ref("Colour".into()), Lit::EnumItem(pick.to_string())), man("z", Type::Boolean)], ext: None })));
-            groups.push(note_group("c09const", m, "enumerated-default:referenced", what));
+            groups.push(note_group("c09const", m, &format!("enumerated-default:referenced:{}", what), what));
             // inline ENUMERATED
             let gi = groups.len();
             let mut m = Module::new(&module_name(gi, 0));
             m.push_def(def("Holder", Type::Sequence(Comps { root: vec![dflt("b", items(&names), Lit::EnumItem(pick.to_string()))], ext: None })));
-            groups.push(note_group("c09const", m, "enumerated-default:inline", what));
+            groups.push(note_group("c09const", m, &format!("enumerated-default:inline:{}", what), what));
             // a value reference of another type carries the name of the item
             let gi = groups.len();
             let mut m = Module::new(&module_name(gi, 0));
             m.push_value(ValueDef { name: pick.to_string(), ty: Type::int(0, 100), lit: Lit::Int(50) });
             m.push_def(def("Colour", items(&names)));
             m.push_def(def("Holder", Type::Sequence(Comps { root: vec![dflt("a", Type::Ref("Colour".into()), Lit::EnumItem(pick.to_string())), dflt("n", Type::int(0, 100), Lit::Int(50))], ext: None })));
-            groups.push(note_group("c09const", m, "enumerated-default:item-shares-its-name-with-a-value-reference", what));
+            groups.push(note_group("c09const", m, &format!("enumerated-default:item-shares-its-name-with-a-value-reference:{}", what), what));
         }
     }
     {
@@ -949,6 +953,7 @@ pub fn c09_random(groups: &mut Vec<Group>, rng: &mut Rng, tier: &str) {
         cfg.hostile_idents = k % 2 == 0;
         cfg.hostile_collisions = false;
         cfg.unrepresentable_ints = false;
+        cfg.min_max_bounds = false; // every MIN/MAX form has its own module in c09_intforms
         cfg.oids = k % 3 == 0;
         let mut g = Gen::new(rng, cfg);
         let nd = g.rng.range(1, 4) as usize;
@@ -957,5 +962,43 @@ pub fn c09_random(groups: &mut Vec<Group>, rng: &mut Rng, tier: &str) {
         let mut grp = Group::new("c09rand", vec![m]);
         grp.inline_macro = k % 4 == 1;
         groups.push(grp);
+    }
+}
+
+/// every INTEGER constraint form (closed, one-sided with MIN/MAX, extensible) as definition, component, OPTIONAL
+/// component and alternative - one module per form
+pub fn c09_intforms(groups: &mut Vec<Group>) {
+    let los: [Option<i128>; 5] = [None, Some(-5), Some(0), Some(5), Some(-3000000000)];
+    let his: [Option<i128>; 6] = [None, Some(-3), Some(0), Some(5), Some(300), Some(5000000000)];
+    for lo in los {
+        for hi in his {
+            if let (Some(a), Some(b)) = (lo, hi) {
+                if a > b {
+                    continue;
+                }
+            }
+            for ext in [false, true] {
+                let c = IntC { lo: lo.map(Bound::Lit).unwrap_or(Bound::Min), hi: hi.map(Bound::Lit).unwrap_or(Bound::Max), ext };
+                let ty = Type::Integer { c: Some(c), named: vec![] };
+                let form = format!("({}..{}{})", lo.map(|v| v.to_string()).unwrap_or("MIN".into()), hi.map(|v| v.to_string()).unwrap_or("MAX".into()), if ext { ",..." } else { "" });
+                let gi = groups.len();
+                let mut m = Module::new(&module_name(gi, 0));
+                m.push_def(def("Top", ty.clone()));
+                m.push_def(def(
+                    "Holder",
+                    Type::Sequence(Comps {
+                        root: vec![
+                            Comp { name: "plain".into(), tag: None, ty: ty.clone(), presence: Presence::Mandatory },
+                            Comp { name: "maybe".into(), tag: None, ty: ty.clone(), presence: Presence::Optional },
+                            Comp { name: "many".into(), tag: None, ty: Type::SequenceOf { elem: Box::new(ty.clone()), size: Size::None }, presence: Presence::Mandatory },
+                            Comp { name: "named".into(), tag: None, ty: Type::Ref("Top".into()), presence: Presence::Mandatory },
+                        ],
+                        ext: None,
+                    }),
+                ));
+                m.push_def(def("Pick", Type::Choice { root: vec![Alt { name: "num".into(), tag: None, ty: ty.clone() }, Alt { name: "other".into(), tag: None, ty: Type::Boolean }], ext: None }));
+                groups.push(note_group("c09int", m, &format!("integer-form:{}", form), &form));
+            }
+        }
     }
 }
